@@ -275,71 +275,59 @@ func VerifC11_Agree() {
 }
 
 // vKeyed / vIndexed: minimal user collections implementing jp.Keyed and
-// jp.Indexed (members kept in sorted key order).
-type vKeyed struct {
-	keys []string
-	vals []any
-}
+// jp.Indexed. They are a named map and a named slice type (not structs) so
+// that jp's reflection fallback for fragments that do not apply to them (a
+// child of an Indexed, an index into a Keyed) ends at the kind switch.
+type vKeyed map[string]any
 
-func (k *vKeyed) ValueForKey(key string) (any, bool) {
-	for i, kk := range k.keys {
-		if kk == key {
-			return k.vals[i], true
+func (k vKeyed) ValueForKey(key string) (any, bool) {
+	v, has := k[key]
+	return v, has
+}
+func (k vKeyed) SetValueForKey(key string, v any) { k[key] = v }
+func (k vKeyed) RemoveValueForKey(key string)    { delete(k, key) }
+func (k vKeyed) Keys() []string {
+	var ks []string
+	for _, key := range []string{"a", "b", "c", "x"} { // the keys mkData uses, in order
+		if _, has := k[key]; has {
+			ks = append(ks, key)
 		}
 	}
-	return nil, false
-}
-func (k *vKeyed) SetValueForKey(key string, v any) {
-	for i, kk := range k.keys {
-		if kk == key {
-			k.vals[i] = v
-			return
+	for key := range k {
+		if key != "a" && key != "b" && key != "c" && key != "x" {
+			ks = append(ks, key)
 		}
 	}
-	k.keys = append(k.keys, key)
-	k.vals = append(k.vals, v)
+	return ks
 }
-func (k *vKeyed) RemoveValueForKey(key string) {
-	for i, kk := range k.keys {
-		if kk == key {
-			k.keys = append(k.keys[:i], k.keys[i+1:]...)
-			k.vals = append(k.vals[:i], k.vals[i+1:]...)
-			return
-		}
-	}
-}
-func (k *vKeyed) Keys() []string { return append([]string{}, k.keys...) }
 
-type vIndexed struct{ vals []any }
+type vIndexed []any
 
-func (x *vIndexed) ValueAtIndex(i int) any {
-	if i < 0 || len(x.vals) <= i {
+func (x vIndexed) ValueAtIndex(i int) any {
+	if i < 0 || len(x) <= i {
 		return nil
 	}
-	return x.vals[i]
+	return x[i]
 }
-func (x *vIndexed) SetValueAtIndex(i int, v any) {
-	if 0 <= i && i < len(x.vals) {
-		x.vals[i] = v
+func (x vIndexed) SetValueAtIndex(i int, v any) {
+	if 0 <= i && i < len(x) {
+		x[i] = v
 	}
 }
-func (x *vIndexed) Size() int { return len(x.vals) }
+func (x vIndexed) Size() int { return len(x) }
 
 func wrapKI(v any) any {
 	switch tv := v.(type) {
 	case []any:
-		x := &vIndexed{}
+		x := make(vIndexed, 0, len(tv))
 		for _, e := range tv {
-			x.vals = append(x.vals, wrapKI(e))
+			x = append(x, wrapKI(e))
 		}
 		return x
 	case map[string]any:
-		k := &vKeyed{}
-		for _, key := range []string{"a", "b", "c", "x"} { // the keys mkData uses, in order
-			if e, has := tv[key]; has {
-				k.keys = append(k.keys, key)
-				k.vals = append(k.vals, wrapKI(e))
-			}
+		k := vKeyed{}
+		for key, e := range tv {
+			k[key] = wrapKI(e)
 		}
 		return k
 	}
@@ -348,16 +336,16 @@ func wrapKI(v any) any {
 
 func unwrapKI(v any) any {
 	switch tv := v.(type) {
-	case *vIndexed:
-		out := make([]any, 0, len(tv.vals))
-		for _, e := range tv.vals {
+	case vIndexed:
+		out := make([]any, 0, len(tv))
+		for _, e := range tv {
 			out = append(out, unwrapKI(e))
 		}
 		return out
-	case *vKeyed:
+	case vKeyed:
 		out := map[string]any{}
-		for i, k := range tv.keys {
-			out[k] = unwrapKI(tv.vals[i])
+		for k, e := range tv {
+			out[k] = unwrapKI(e)
 		}
 		return out
 	}
